@@ -328,6 +328,8 @@ class Library:
             h = self.rec_methods.get((o.tag, attr))
             if h:
                 return h(ex, o)
+        if callable(o) and getattr(o, "pyvc_attrs", None) and attr in o.pyvc_attrs:
+            return o.pyvc_attrs[attr]           # class-level attributes of a modelled builtin (dict.fromkeys)
         raise Unsupported(f"attribute {attr!r} of {type(o).__name__} ({o!r})")
 
     def rec_attr(self, ex, o, attr, node):
